@@ -35,6 +35,9 @@ def check_C01(tier, seed):
     measured = vmrun.run_scenarios(base)
     sweep = []
     for s, c in zip(base, measured):
+        if c.get('timeout'):
+            rep.violation('program did not finish within the wall-clock guard under a budget of 10^6: %r' % (c.get('sources'),), {'calls': c.get('sources')})
+            continue
         if 'harness_error' in c:
             rep.machinery.append(c['harness_error'])
             continue
@@ -42,7 +45,7 @@ def check_C01(tier, seed):
         sweep += families.boundary_budgets(s, ops)
     sweep += families.closure_sessions(seed, 150 if quick else 1500)
     sweep += families.cached_repeat_sessions(seed + 3, 150 if quick else 1500)
-    cases = [c for c in vmrun.run_scenarios(sweep) if 'harness_error' not in c]
+    cases = engine.run_family(rep, sweep)
     engine.judge_cases(rep, cases, devs, what='recorded run')
     rep.assumptions += ['host functions are the probes/callbacks of harness/vmrun.py (a Python host that catches the limit error is '
                         'modelled by the swallowing callback)', 'TLC bounds: MaxN and the program sets of spec/MC_C01.tla']
@@ -110,7 +113,7 @@ def check_C09(tier, seed):
         engine.replay_emitted(rep, _emitted(res), devs, sample=2000 if quick else 15000, seed=seed, what='TLC scenario',
                               always=lambda r: any(n in json.dumps(r['calls']) for n in ('"t5"', '"nn"', '"hl"')))
     scns = families.probe_programs(seed, 1500 if quick else 12000, depth=3 if quick else 4)
-    cases = [c for c in vmrun.run_scenarios(scns) if 'harness_error' not in c]
+    cases = engine.run_family(rep, scns)
     engine.judge_cases(rep, cases, devs, what='probe program')
     _reference_parse_component(rep, [cl['src'] for c in cases[:400 if quick else 4000] for cl in c['calls']], 'probe program')
     rep.assumptions += ['probe outcomes are drawn from {1, 0, 2, "a", None, host list, host dict, raise}', 'TLC bounds: MaxDepth, MaxLeaves of spec/MC_C09.tla']
@@ -132,14 +135,14 @@ def check_C10(tier, seed):
         cases = engine.replay_emitted(rep, _emitted(res), devs, sample=2000 if quick else 16128, seed=seed, what='TLC scenario')
         _functions_frozen(rep, cases)
     scns = families.scoping_programs(seed, 2000 if quick else 15000)
-    cases = [c for c in vmrun.run_scenarios(scns) if 'harness_error' not in c]
+    cases = engine.run_family(rep, scns)
     engine.judge_cases(rep, cases, devs, what='scoping program')
     _functions_frozen(rep, cases)
     # sessions of the interactive loop (smartquery/repl.py, spec/SQRepl.tla): one names mapping over many evals
     from . import repl_conf
     r = random.Random(seed + 5)
     scns = [repl_conf.random_script(r, r.choice([4, 8, 12])) for _ in range(150 if quick else 1500)]
-    cases = [c for c in vmrun.run_scenarios(scns) if 'harness_error' not in c]
+    cases = engine.run_family(rep, scns)
     engine.judge_cases(rep, cases, devs, what='interactive session', side_clauses={'property REPL Printed': 'repl_printed_text_differences'})
     lv, res = repl_conf.validate_loops(cases)
     rep.add_tlc(res, 'TraceRepl on %d recorded sessions' % len(cases))
@@ -173,7 +176,7 @@ def check_C12(tier, seed):
     if not rep.machinery:
         engine.replay_emitted(rep, _emitted(res), devs, sample=2500 if quick else 19074, seed=seed, what='TLC scenario')
     scns = families.alias_programs(seed, 2000 if quick else 20000)
-    cases = [c for c in vmrun.run_scenarios(scns) if 'harness_error' not in c]
+    cases = engine.run_family(rep, scns)
     engine.judge_cases(rep, cases, devs, what='aliasing program')
     return rep.finish()
 
@@ -194,7 +197,7 @@ def check_C13(tier, seed):
     if not rep.machinery:
         engine.replay_emitted(rep, _emitted(res), devs, sample=2500 if quick else 9000, seed=seed, what='TLC scenario')
     scns = families.nonmutator_calls(seed, 2500 if quick else 20000)
-    cases = [c for c in vmrun.run_scenarios(scns) if 'harness_error' not in c]
+    cases = engine.run_family(rep, scns)
     engine.judge_cases(rep, cases, devs, what='builtin call')
     return rep.finish()
 
@@ -407,7 +410,7 @@ def check_C14(tier, seed):
                 scns.append(families.c14_scenario(list(p) + [o]))
         rep.notes['direction_a']['replayed'] = len(scns)
     scns += families.c14_random(seed, 600 if quick else 6000)
-    cases = [c for c in vmrun.run_scenarios(scns) if 'harness_error' not in c]
+    cases = engine.run_family(rep, scns)
     engine.judge_cases(rep, cases, devs, what='operation sequence')
     return rep.finish()
 
@@ -451,7 +454,7 @@ def check_C03(tier, seed):
         pick = rng.sample(descs, min(len(descs), 400 if quick else 5000))
         scns = [_c03_scenario(d, optrees[0]) for d in pick]
         rep.notes['direction_a'] = {'scenarios_explored_by_tlc': len(descs), 'replayed_at_real_scale': len(scns)}
-        cases = [c for c in vmrun.run_scenarios(scns) if 'harness_error' not in c]
+        cases = engine.run_family(rep, scns)
         engine.judge_cases(rep, cases, devs, what='cap scenario')
     return rep.finish()
 
@@ -478,12 +481,12 @@ def check_C16(tier, seed):
             r['heap0'][3]['items'] = [r['heap0'][3]['items'][0]] * 10000
         engine.replay_emitted(rep, recs, devs, sample=1500 if quick else 4000, seed=seed, what='TLC scenario')
     scns = vmgen.failing_programs(seed, 1500 if quick else 12000)
-    cases = [c for c in vmrun.run_scenarios(scns) if 'harness_error' not in c]
+    cases = engine.run_family(rep, scns)
     engine.judge_cases(rep, cases, devs, what='failing program')
     _base_exceptions(rep, cases)
     # the budget exhausted inside a lambda that earlier calls left in the names mapping, again and again (3-4 call histories)
     scns = families.closure_sessions(seed + 21, 200 if quick else 2000, more_calls=True)
-    cases = [c for c in vmrun.run_scenarios(scns) if 'harness_error' not in c]
+    cases = engine.run_family(rep, scns)
     engine.judge_cases(rep, cases, devs, what='closure history')
     _base_exceptions(rep, cases)
     # the same faulty text submitted repeatedly to long-lived parsers (plain and caching): SQSession says it fails every time
@@ -556,7 +559,7 @@ def check_C18(tier, seed):
     scns = [vmgen.random_scenario(seed * 31337 + i, ncalls=1) for i in range(1200 if quick else 10000)]
     for s in scns:
         s['list_names'] = True
-    cases = [c for c in vmrun.run_scenarios(scns) if 'harness_error' not in c]
+    cases = engine.run_family(rep, scns)
     engine.judge_cases(rep, cases, devs, what='program')
     # lexer side
     lp = _lexparse()
@@ -605,13 +608,13 @@ def check_C07(tier, seed):
         rep.notes['generator_left_domain'] = sum(1 for r in recs if r.get('end') == 'unspec')
         engine.replay_emitted(rep, recs, devs, sample=None if quick else 20000, seed=seed, what='generated program')
     scns = [vmgen.random_scenario(seed * 1000003 + i) for i in range(2500 if quick else 25000)]
-    cases = [c for c in vmrun.run_scenarios(scns) if 'harness_error' not in c]
+    cases = engine.run_family(rep, scns)
     engine.judge_cases(rep, cases, devs, what='random program')
     _reference_parse_component(rep, [cl['src'] for c in cases[:500 if quick else 5000] for cl in c['calls']], 'random program')
     # every eval call the repository's own tests make, recorded and validated event by event
     tscns = families.repo_test_evals()
     rep.notes['repository_test_evals_recorded'] = len(tscns)
-    tcases = [c for c in vmrun.run_scenarios(tscns) if 'harness_error' not in c]
+    tcases = engine.run_family(rep, tscns)
     engine.judge_cases(rep, tcases, devs, what='eval call of the repository test-suite')
     rep.assumptions += ['programs that leave the specified part of Python semantics (binary float arithmetic, int/int division, '
                         'non-ASCII case mapping, ...) are counted as left-domain and not as validated']
@@ -647,11 +650,11 @@ def check_C08(tier, seed):
     scns = families.numeric_programs(seed, 2500 if quick else 25000, host_types=False)
     for s in scns:
         s['literals'] = True
-    cases = [c for c in vmrun.run_scenarios(scns) if 'harness_error' not in c]
+    cases = engine.run_family(rep, scns)
     engine.judge_cases(rep, cases, devs, what='numeric program')
     _reference_parse_component(rep, [cl['src'] for c in cases[:400 if quick else 4000] for cl in c['calls']], 'numeric program')
     scns = families.literal_history_programs(seed + 2, 400 if quick else 5000)
-    cases = [c for c in vmrun.run_scenarios(scns) if 'harness_error' not in c]
+    cases = engine.run_family(rep, scns)
     engine.judge_cases(rep, cases, devs, what='literal-after-float history')
     rep.assumptions += ['** and float() of non-integral values are specified relationally (Decimal of <= 28 digits); float results are exact '
                         'binary expansions by definition and excluded from the exactness claim']
@@ -675,14 +678,14 @@ def check_C04(tier, seed):
     if not rep.machinery:
         engine.replay_emitted(rep, _emitted(res), devs, sample=1500 if quick else 16900, seed=seed, what='TLC scenario')
     scns = families.numeric_programs(seed + 7, 1200 if quick else 20000, host_types=True)
-    cases = [c for c in vmrun.run_scenarios(scns) if 'harness_error' not in c]
+    cases = engine.run_family(rep, scns)
     engine.judge_cases(rep, cases, devs, what='numeric chain')
     srcs = [cl['src'] for c in cases for cl in c['calls']]
     scns = families.shadowed_cast_programs(seed + 9, 500 if quick else 6000)
-    cases = [c for c in vmrun.run_scenarios(scns) if 'harness_error' not in c]
+    cases = engine.run_family(rep, scns)
     engine.judge_cases(rep, cases, devs, what='program with shadowed numeric casts')
     scns = families.literal_arithmetic_programs(seed + 11, 400 if quick else 4000)
-    cases = [c for c in vmrun.run_scenarios(scns) if 'harness_error' not in c]
+    cases = engine.run_family(rep, scns)
     engine.judge_cases(rep, cases, devs, what='arithmetic over literals')
     _reference_parse_component(rep, srcs[:300 if quick else 3000] + [cl['src'] for c in cases for cl in c['calls']], 'arithmetic program')
     return rep.finish()
@@ -713,7 +716,7 @@ def check_C19(tier, seed):
     rep.exhaustive = True
     _random.seed(seed)
     scns = families.random_builtin_programs(seed, 1500 if quick else 15000, draws=12 if quick else 40)
-    cases = [c for c in vmrun.run_scenarios(scns) if 'harness_error' not in c]
+    cases = engine.run_family(rep, scns)
     engine.judge_cases(rep, cases, devs, what='draws')
     # observation only (not demanded by the property): do both end points occur?
     seen = {}
@@ -771,7 +774,7 @@ def check_C02(tier, seed):
     if not rep.machinery:
         cases_all += engine.replay_emitted(rep, _emitted(res), devs, sample=2000 if quick else 16000, seed=seed, what='TLC scenario') or []
     scns = families.confinement_programs(seed, 2500 if quick else 25000)
-    cases = [c for c in vmrun.run_scenarios(scns) if 'harness_error' not in c]
+    cases = engine.run_family(rep, scns)
     engine.judge_cases(rep, cases, devs, what='program')
     cases_all += cases
     audit_seen = {}
@@ -875,7 +878,7 @@ def check_C11(tier, seed):
     rep.notes['differential_calls'] = ncalls
     # evaluations inside histories are validated against the (history-free) evaluator specification as well
     scns = families.closure_sessions(seed + 3, 60 if quick else 600)
-    cases = [c for c in vmrun.run_scenarios(scns) if 'harness_error' not in c]
+    cases = engine.run_family(rep, scns)
     engine.judge_cases(rep, cases, devs, what='eval history')
     rep.assumptions += ['random builtins are outside the property (their results depend on the global RNG by definition)',
                         'resuming a half-consumed list_names generator after an intervening call is not judged (the property speaks of '
